@@ -1,2 +1,57 @@
 """Stated bounds / outside-the-claim text per property (copied into every evidence file)."""
-BOUNDS = {}
+
+_STEP = ("in-crate step harnesses: allocation 4 bytes (Bytes states) / 8 bytes (BytesMut states), symbolic contents, view (off,len[,cap]) and "
+         "reference count in 1..=usize::MAX/2, one operation per harness, arguments symbolic (request sizes over all of usize); unwind 6/10 with "
+         "unwinding assertions; F-SEQ: public-API histories of 3-4 concrete operation kinds with symbolic arguments over a 4-byte buffer, <= 3 live handles")
+_STEP_OUT = ("buffers larger than 8 bytes (CBMC cannot decide symbolic offsets into objects > 64 bytes; allocation sizes must be concrete), more than "
+             "two real handles per harness (further handles are abstracted to the reference count and 'bytes outside my region unchanged'), "
+             "the paper induction step from single operations to arbitrary histories, 32-bit / big-endian targets, allocation failure")
+
+BOUNDS = {
+    "C01": {"bounds": _STEP, "outside": _STEP_OUT, "assumptions": ["ghost handles = reference count + unchanged bytes outside the target's region"]},
+    "C02": {"bounds": _STEP + "; plus the cursor/getter/putter/out-of-contract families (see C09-C13) whose CBMC memory-safety checks all count here",
+            "outside": _STEP_OUT + "; uninitialised-memory reads and provenance-level UB (not modelled by CBMC)", "assumptions": []},
+    "C03": {"bounds": _STEP + "; E2 CFG facts of Bytes::from_owner (unbounded: read from the MIR)",
+            "outside": _STEP_OUT + "; leaks on unwinding paths other than the from_owner/as_ref edge (Kani has no unwinding)",
+            "assumptions": ["owner type instantiated with an instrumented [u8;4] struct"]},
+    "C04": {"bounds": _STEP + "; reserve growth requests concrete (3, 9); capacity classes >= 1 KiB only via a symbolic original_capacity_repr field",
+            "outside": _STEP_OUT, "assumptions": ["symbolic original_capacity_repr over-approximates the reachable states of the allocate-new-buffer branch"]},
+    "C05": {"bounds": "E1: stale-snapshot promotion race from an arbitrary unpromoted 4-byte state, even and odd address; E3: 2 threads (3 in thorough) x "
+                      "<= 4 operations from {clone, read, drop, into_vec, into_mut, is_unique}, 5 representations + promotion through a shared &Bytes, "
+                      "<= ~45 events per program, 8-bit counter values",
+            "outside": "programs beyond these bounds; sampled schedules of randomized programs on real threads (sampling belongs to another technique); "
+                       "BytesMut reserve/try_reclaim/unsplit in the concurrent alphabet (their uniqueness test is Shared::is_unique, whose skeleton is "
+                       "covered through the frozen representation); SC atomics (unused by the crate)",
+            "assumptions": ["non-atomic work is abstracted to READ/WRITE/FREE/TAKE events by the E2 model table (listed under coverage.engines[].models)"]},
+    "C06": {"bounds": "as C05 part 2 (E3)", "outside": "as C05; consume ordering, mixed-size accesses, compiler transformations outside RC11",
+            "assumptions": ["RC11 fragment without SC accesses; happens-before = (po u sw)+ with release sequences"]},
+    "C07": {"bounds": _STEP, "outside": _STEP_OUT + "; the address clause for EMPTY split results (without_provenance pointers are not representable in CBMC's "
+                                                   "object/offset pointer encoding)", "assumptions": []},
+    "C08": {"bounds": _STEP, "outside": _STEP_OUT, "assumptions": []},
+    "C09": {"bounds": "sequences <= 4 bytes per leaf buffer (<= 8 per nesting), symbolic chunking at every position (SymBuf), <= 2 cursor operations per "
+                      "harness, chunks_vectored destinations of 0..=3 slots, Take limits over all of usize, Cursor positions over all of u64, VecDeque in "
+                      "three concrete ring shapes (capacity 4); unwind 6-8",
+            "outside": "longer sequences, more than 3 IoSlice slots, induction over nesting depth (paper argument; depth 3/4 instantiated), VecDeque internals beyond 4 elements",
+            "assumptions": ["every lawful deterministic Buf is observationally one SymBuf"]},
+    "C10": {"bounds": "value width + 1 bytes per buffer; all chunkings for widths <= 4 (quick) / <= 16 (thorough), one symbolic cut + 1-byte and 3-byte chunks "
+                      "for 8/16-byte values; nbytes symbolic 0..=8; shortfall symbolic; unwind width+2",
+            "outside": "big-endian targets (native-endian methods are checked on the little-endian build only)", "assumptions": []},
+    "C11": {"bounds": "windows of width+4 bytes with guard bytes, symbolic split / limit / chunking; growable targets with concrete nbytes (0,3,8 quick; 0..=8 thorough)",
+            "outside": "windows > 20 bytes, Vec/BytesMut growth beyond one reallocation", "assumptions": ["bytes::panic_advance replaced by an observer stub in the does-not-fit harnesses"]},
+    "C12": {"bounds": "as C09 for the Buf side; BufMut side: 8-byte guard arrays, symbolic limit over all of usize, symbolic split, sources <= 3 bytes",
+            "outside": "std::io default methods (read_to_end, read_line, write_all ...)", "assumptions": []},
+    "C13": {"bounds": "arguments symbolic over the entire out-of-contract region of usize on the step states; E2 path queries are unbounded CFG facts",
+            "outside": "execution after unwinding (Kani: panic = abort): 'state after catch_unwind' is replaced by 'the panic is the first effect' (E2) and 'the call does not return'",
+            "assumptions": []},
+    "C14": {"bounds": "both operands symbolic, lengths 0..=3, all 256 byte values; str/String operands ASCII; aliasing views of one 4-byte buffer for Bytes/Bytes; unwind 6 (10 for Hash)",
+            "outside": "operands longer than 3 bytes, non-ASCII str operands", "assumptions": []},
+    "C15": {"bounds": "Debug: ALL byte strings of length 0..=3; hex: 1-2 symbolic bytes; serde: <= 3 symbolic bytes, concrete size hints; unwind 26",
+            "outside": "longer strings (per-byte independence of the formatter loop is a stated argument), real serde data formats", "assumptions": []},
+    "C16": {"bounds": "the bounds of the re-run families; ptr_map twin for addresses < 2^47", "outside": "release-profile execution (Kani forces overflow checks on), 32-bit targets",
+            "assumptions": ["a build differs from the modelled dev build only by removed overflow checks / debug_asserts (all proved) and cfg!(debug_assertions) in vptr"]},
+    "C17": {"bounds": "4 iterations of every consumer loop (no unwinding assertions: a liar may loop a consumer forever), remaining() lies in 0..=12 or usize::MAX, chunks = any sub-slice of an 8-byte array",
+            "outside": "leak-freedom on panicking paths, lies of unsafe-trait (BufMut) implementors", "assumptions": ["--prove-safety-only: panics and wrong results are allowed by the property"]},
+    "C18": {"bounds": "allocation of 8 bytes, one round from the class R(C) with symbolic n, k, offset and form; symbolic capacity class 1..=7 for the replacement buffer",
+            "outside": "retention windows > 0, the literal 10^3..10^6-round histories (replaced by the induction), consumption by split+freeze inside one harness (decided by arc_freeze + the round without freeze)",
+            "assumptions": []},
+}
